@@ -152,13 +152,15 @@ func genC10Lang(t *rapid.T) C10Case {
 	langKind := []string{"lang", "lang", "ctxlang"}
 	n := 6 + uniformN(t, 25, "nops")
 	for i := 0; i < n; i++ {
-		switch k := uniformN(t, 20, "kind"); {
+		switch k := uniformN(t, 22, "kind"); {
 		case k < 7:
 			ops = append(ops, C10Op{Kind: langKind[uniformN(t, 3, "langkind")], Lang: []string{"", "nor", "eng"}[uniformN(t, 3, "lang")]})
 		case k < 13:
 			ops = append(ops, C10Op{Kind: "put", Key: BS(keys[uniformN(t, len(keys), "key")]), Val: BS(vals[uniformN(t, 3, "val")])})
 		case k < 19:
 			ops = append(ops, C10Op{Kind: "get", Key: BS(keys[uniformN(t, len(keys), "key")])})
+		case k < 21:
+			ops = append(ops, C10Op{Kind: "dump", Key: BS([]string{"", "f", "foo"}[uniformN(t, 3, "dumpprefix")])})
 		default:
 			ops = append(ops, C10Op{Kind: "reopen"})
 		}
@@ -533,8 +535,12 @@ func checkC10(c C10Case) (o Outcome) {
 					continue // listing is implemented on the filesystem backend
 				}
 				if hasTranslated || ref.effLang() != "" {
-					o.class("dump-skipped:translated-entries")
-					continue // what "the stored keys" are for translated entries is not specified
+					// what "the stored keys" are for translated entries is not specified: the
+					// listing is made and not looked at - the caller's type, session and language
+					// are still what the operations after it work under
+					o.class("dump-unchecked:translated-entries")
+					dumpAll(ctx, b.d, []byte(prefix))
+					continue
 				}
 				emptySessionSeesAll := sessioned(ref.pfx) && ref.session == "" && otherSessions
 				if emptySessionSeesAll && tolerate("F-C10-2") {
